@@ -127,7 +127,9 @@ theorem GrowOK_dEq {o : Stoch} {m : Mode} {R : List Desc} {x y : Desc} (h : dEq 
   cases hyt : y.trans with
   | none =>
     simp only [hyt] at hy ⊢
-    rw [compatibleIds_dEq h]
+    have hpk : pickable (o.repeatBonds.map Prod3.d) (some x) = pickable (o.repeatBonds.map Prod3.d) (some y) := by
+      unfold pickable; rw [compatibleIds_dEq h]
+    rw [compatibleIds_dEq h, hpk]
     exact ⟨hy.1, hy.2.1, fun c hc => EntryOK_dEq h c (hy.2.2 c hc)⟩
   | some l =>
     simp only [hyt] at hy ⊢
@@ -139,20 +141,26 @@ theorem CapOK_dEq {o : Stoch} {x y : Desc} (h : dEq x y) (hy : CapOK o y) : CapO
   rw [compatibleIds_dEq h]
   exact hy
 
-theorem InR_GrowOK {o : Stoch} {m : Mode} {R : List Desc} (hc : Cert o m R) {x : Desc} (hx : InR R x) : GrowOK o m R x := by
+theorem InR_app_right {R0 R : List Desc} {x : Desc} (h : InR R x) : InR (R0 ++ R) x := by
+  obtain ⟨y, hy, he⟩ := h; exact ⟨y, List.mem_append_right _ hy, he⟩
+
+theorem InR_app_left {R0 R : List Desc} {x : Desc} (h : InR R0 x) : InR (R0 ++ R) x := by
+  obtain ⟨y, hy, he⟩ := h; exact ⟨y, List.mem_append_left _ hy, he⟩
+
+theorem InR_GrowOK {o : Stoch} {m : Mode} {R0 R : List Desc} (hc : Cert o m R0 R) {x : Desc} (hx : InR (R0 ++ R) x) : GrowOK o m R x := by
   obtain ⟨y, hy, he⟩ := hx
   exact GrowOK_dEq he (hc.2.1 y hy)
 
-theorem InR_CapOK {o : Stoch} {m : Mode} {R : List Desc} (hc : Cert o m R) (hm : m.chain = false) {x : Desc} (hx : InR R x) : CapOK o x := by
+theorem InR_CapOK {o : Stoch} {m : Mode} {R0 R : List Desc} (hc : Cert o m R0 R) (hm : m.chain = false) {x : Desc} (hx : InR R x) : CapOK o x := by
   obtain ⟨y, hy, he⟩ := hx
   exact CapOK_dEq he (hc.2.2 hm y hy)
 
-theorem InR_nonneg {o : Stoch} {m : Mode} {R : List Desc} (hc : Cert o m R) {x : Desc} (hx : InR R x) : 0 ≤ x.weight := by
+theorem InR_nonneg {o : Stoch} {m : Mode} {R0 R : List Desc} (hc : Cert o m R0 R) {x : Desc} (hx : InR (R0 ++ R) x) : 0 ≤ x.weight := by
   obtain ⟨y, hy, he⟩ := hx
   rw [he.2.2.2.1]; exact hc.1 y hy
 
 /-- the pick of the open descriptor to continue with (`choose_compatible_weight(bds, None)`) cannot raise -/
-theorem chooseOpen_progress {o : Stoch} {m : Mode} {R : List Desc} (hc : Cert o m R) {s : Mol} (hs : OpensIn R s) (hne : s.opens ≠ []) (ω : Oracle) :
+theorem chooseOpen_progress {o : Stoch} {m : Mode} {R0 R : List Desc} (hc : Cert o m R0 R) {s : Mol} (hs : OpensIn (R0 ++ R) s) (hne : s.opens ≠ []) (ω : Oracle) :
     OkOrBenign (choose (s.opens.map (·.d)) none ω) := by
   apply choose_progress
   · intro h
@@ -206,10 +214,10 @@ theorem getD_opens {s : Mol} {i : Nat} (hlt : i < s.opens.length) : s.opens.getD
   rw [List.getD_eq_getElem?_getD, List.getElem?_eq_getElem hlt]; rfl
 
 /-- **one capping step cannot raise**, keeps the remaining open descriptors inside `R` and closes one of them -/
-theorem capOne_progress {o : Stoch} {m : Mode} {R : List Desc} (hc : Cert o m R) (hm : m.chain = false) {s : Mol} (hs : OpensIn R s) (hne : s.opens ≠ []) (ω : Oracle) :
+theorem capOne_progress {o : Stoch} {m : Mode} {R0 R : List Desc} (hc : Cert o m R0 R) (hm : m.chain = false) {s : Mol} (hs : OpensIn R s) (hne : s.opens ≠ []) (ω : Oracle) :
     OkOrBenign (capOne o s ω) ∧
     ∀ s' t ω', capOne o s ω = .ok (s', t, ω') → OpensIn R s' ∧ s'.opens.length + 1 = s.opens.length := by
-  have h1 := chooseOpen_progress hc hs hne ω
+  have h1 := chooseOpen_progress hc (fun od h => InR_app_right (hs od h)) hne ω
   unfold capOne
   cases hch : choose (s.opens.map (·.d)) none ω with
   | error e => exact ⟨fun e' he' => by injection he' with he'; subst he'; exact h1 e hch, fun s' t ω' h => by cases h⟩
@@ -265,7 +273,7 @@ theorem capOne_progress {o : Stoch} {m : Mode} {R : List Desc} (hc : Cert o m R)
           omega
 
 /-- **capping cannot raise** -/
-theorem capAll_progress {o : Stoch} {m : Mode} {R : List Desc} (hc : Cert o m R) (hm : m.chain = false) (f : Nat) {s : Mol} (hs : OpensIn R s) (ω : Oracle) :
+theorem capAll_progress {o : Stoch} {m : Mode} {R0 R : List Desc} (hc : Cert o m R0 R) (hm : m.chain = false) (f : Nat) {s : Mol} (hs : OpensIn R s) (ω : Oracle) :
     OkOrBenign (capAll o f s ω) := by
   induction f generalizing s ω with
   | zero =>
@@ -322,6 +330,51 @@ theorem capAll_ok_empty {o : Stoch} (f : Nat) {s s' : Mol} {ω ω' : Oracle} {t 
           ok_inj h; obtain ⟨rfl, -, -⟩ := h
           exact ih hrec
 
+theorem posOf_getElem? {v : Nat} {opts : List Nat} {k : Nat} (h : posOf v opts = some k) : opts[k]? = some v := by
+  induction opts generalizing k with
+  | nil => simp [posOf] at h
+  | cons o os ih =>
+    unfold posOf at h
+    by_cases ho : o = v
+    · simp only [ho, if_true, Option.some.injEq] at h
+      subst h; simp [ho]
+    · simp only [ho, if_false] at h
+      cases hp : posOf v os with
+      | none => simp [hp] at h
+      | some k' =>
+        simp only [hp, Option.map_some, Option.some.injEq] at h
+        subst h
+        simpa using ih hp
+
+/-- what `choose_compatible_weight` returns is pickable -/
+theorem choose_pickable {bds : List Desc} {b : Option Desc} {ω ω' : Oracle} {v : Nat} {c : Choice}
+    (h : choose bds b ω = .ok (v, c, ω')) : v ∈ pickable bds b := by
+  obtain ⟨hopts, hprobs, -, -, -, k, hk, hpos⟩ := C08_choose_spec h
+  rw [hopts] at hk
+  have hget := posOf_getElem? hk
+  unfold pickable
+  simp only [List.mem_filterMap]
+  rw [hprobs] at hpos
+  cases hp : (chooseProbs ((compatibleIds bds b).map fun i => (bds.getD i default).weight))[k]? with
+  | none =>
+    rw [List.getD_eq_getElem?_getD, hp] at hpos
+    simp at hpos
+  | some p =>
+    rw [List.getD_eq_getElem?_getD, hp] at hpos
+    simp only [Option.getD_some] at hpos
+    refine ⟨(v, p), ?_, by simp [hpos]⟩
+    rw [List.mem_iff_getElem?]
+    exact ⟨k, by rw [List.getElem?_zip_eq_some]; exact ⟨hget, hp⟩⟩
+
+theorem pickable_subset {bds : List Desc} {b : Option Desc} {v : Nat} (h : v ∈ pickable bds b) : v ∈ compatibleIds bds b := by
+  unfold pickable at h
+  simp only [List.mem_filterMap] at h
+  obtain ⟨⟨i, p⟩, hm, hv⟩ := h
+  split at hv
+  · injection hv with hv; subst hv
+    exact (List.of_mem_zip hm).1
+  · cases hv
+
 theorem chooseList_progress (l : List Rat) (w : Rat) (ω : Oracle) (hne : l ≠ []) (hok : probsOk (l.map (· / w)) w = true) :
     OkOrBenign (chooseList l w ω) := by
   intro e h
@@ -332,7 +385,8 @@ theorem chooseList_progress (l : List Rat) (w : Rat) (ω : Oracle) (hne : l ≠ 
   exact pickFrom_benign _ _ _ e h
 
 /-- **one growth step cannot raise** and leaves only descriptors of `R` open -/
-theorem addUnit_progress {o : Stoch} {m : Mode} {R : List Desc} (hc : Cert o m R) {s : Mol} (hs : OpensIn R s) (hne : s.opens ≠ []) (ω : Oracle) :
+theorem addUnit_progress {o : Stoch} {m : Mode} {R0 R : List Desc} (hc : Cert o m R0 R) {s : Mol} (hs : OpensIn (R0 ++ R) s)
+    (hcase : OpensIn R s ∨ s.opens.length = 1) (hne : s.opens ≠ []) (ω : Oracle) :
     OkOrBenign (addUnit o s ω) ∧ ∀ s' t ω', addUnit o s ω = .ok (s', t, ω') →
       OpensIn R s' ∧ (m.chain = true → s.opens.length = 1 → s'.opens.length = 1) ∧
       (∀ r, m.inv = some r → ∃ od ∈ s'.opens, isCompatible r od.d = true) := by
@@ -344,7 +398,7 @@ theorem addUnit_progress {o : Stoch} {m : Mode} {R : List Desc} (hc : Cert o m R
     obtain ⟨i, c1, ω1⟩ := r
     have hlt : i < s.opens.length := by simpa using choose_lt hch
     have hod : s.opens[i]? = some s.opens[i] := List.getElem?_eq_getElem hlt
-    have hin : InR R s.opens[i].d := hs _ (List.getElem_mem hlt)
+    have hin : InR (R0 ++ R) s.opens[i].d := hs _ (List.getElem_mem hlt)
     have hgrow := InR_GrowOK hc hin
     dsimp only
     rw [getD_opens hlt]
@@ -357,7 +411,7 @@ theorem addUnit_progress {o : Stoch} {m : Mode} {R : List Desc} (hc : Cert o m R
       | none =>
         simp only [htr] at hgrow ⊢
         obtain ⟨g1, g2, g3⟩ := hgrow
-        exact ⟨choose_progress _ _ _ g1 g2, fun c c2 ω2 hok => g3 c (choose_mem hok)⟩
+        exact ⟨choose_progress _ _ _ g1 g2, fun c c2 ω2 hok => g3 c (choose_pickable hok)⟩
       | some l =>
         simp only [htr] at hgrow ⊢
         obtain ⟨g1, g2, g3⟩ := hgrow
@@ -390,7 +444,11 @@ theorem addUnit_progress {o : Stoch} {m : Mode} {R : List Desc} (hc : Cert o m R
         · intro od hod'
           rw [hopens] at hod'
           rcases List.mem_append.1 hod' with hm | hm
-          · exact hs od (mem_of_mem_eraseIdx hm)
+          · rcases hcase with hR | hone
+            · exact hR od (mem_of_mem_eraseIdx hm)
+            · have : s.opens.eraseIdx i = [] := by
+                rw [List.eraseIdx_eq_nil_iff]; right; exact ⟨hone, by omega⟩
+              rw [this] at hm; simp at hm
           · obtain ⟨d', hd', hdeq⟩ := fresh_erase_dEq tok _ _ _ k od hm
             obtain ⟨y, hy, hye⟩ := hsib d' hd'
             exact ⟨y, hy, ⟨hdeq.1.trans hye.1, hdeq.2.1.trans hye.2.1, hdeq.2.2.1.trans hye.2.2.1, hdeq.2.2.2.1.trans hye.2.2.2.1, hdeq.2.2.2.2.trans hye.2.2.2.2⟩⟩
@@ -414,7 +472,7 @@ theorem capAll_nil {o : Stoch} (f : Nat) {s : Mol} (h : s.opens = []) (ω : Orac
   cases f <;> simp [capAll, h]
 
 /-- **`finalize_mol` cannot raise** -/
-theorem finalize_progress {o : Stoch} {m : Mode} {R : List Desc} (hc : Cert o m R) (hm : ModeOf o m) (f : Nat) {s : Mol}
+theorem finalize_progress {o : Stoch} {m : Mode} {R0 R : List Desc} (hc : Cert o m R0 R) (hm : ModeOf o m) (f : Nat) {s : Mol}
     (hs : OpensIn R s) (hch : m.chain = true → s.opens.length = 1)
     (hr : ∀ r, m.inv = some r → ∃ od ∈ s.opens, isCompatible r od.d = true) (ω : Oracle) :
     OkOrBenign (finalize o f s ω) ∧ ∀ fin t ω', finalize o f s ω = .ok (fin, t, ω') → Handed m R fin := by
@@ -442,7 +500,7 @@ theorem finalize_progress {o : Stoch} {m : Mode} {R : List Desc} (hc : Cert o m 
       simp only [List.length_map] at hlt
       rw [List.getD_eq_getElem?_getD, List.getElem?_map, List.getElem?_eq_getElem hlt]
       simp only [Option.map_some, Option.getD_some]
-      exact InR_nonneg hc (hs _ (List.getElem_mem hlt))
+      exact InR_nonneg hc (InR_app_right (hs _ (List.getElem_mem hlt)))
     have h1 := choose_progress _ _ ω hne hpos
     cases hch1 : choose (s.opens.map (·.d)) (some (invertTerminal o.right)) ω with
     | error e => exact ⟨fun e' he' => by injection he' with he'; subst he'; exact h1 e hch1, fun s' t ω' h => by cases h⟩
@@ -481,20 +539,21 @@ theorem finalize_progress {o : Stoch} {m : Mode} {R : List Desc} (hc : Cert o m 
 
 
 /-- **the growth loop cannot raise**, and ends with nothing open or with exactly the descriptor for the right terminal -/
-theorem growLoop_progress {o : Stoch} {m : Mode} {R : List Desc} (hc : Cert o m R) (hm : ModeOf o m) (start target : Rat) :
-    ∀ (f n : Nat) (s : Mol) (ω : Oracle), OpensIn R s → s.opens ≠ [] → (m.chain = true → s.opens.length = 1) →
+theorem growLoop_progress {o : Stoch} {m : Mode} {R0 R : List Desc} (hc : Cert o m R0 R) (hm : ModeOf o m) (start target : Rat) :
+    ∀ (f n : Nat) (s : Mol) (ω : Oracle), OpensIn (R0 ++ R) s → (OpensIn R s ∨ s.opens.length = 1) → s.opens ≠ [] →
+      (m.chain = true → s.opens.length = 1) →
       OkOrBenign (growLoop o start target f n s ω) ∧
       ∀ r t ω', growLoop o start target f n s ω = .ok (r, t, ω') → Handed m R r := by
   intro f
   induction f with
   | zero =>
-    intro n s ω _ _ _
+    intro n s ω _ _ _ _
     refine ⟨?_, ?_⟩
     · intro e h; simp only [growLoop] at h; injection h with h; subst h; exact Or.inr (Or.inr rfl)
     · intro r t ω' h; simp [growLoop] at h
   | succ f ih =>
-    intro n s ω hs hne hch
-    obtain ⟨hab, hap⟩ := addUnit_progress hc hs hne ω
+    intro n s ω hs hcase hne hch
+    obtain ⟨hab, hap⟩ := addUnit_progress hc hs hcase hne ω
     unfold growLoop
     cases hau : addUnit o s ω with
     | error e => exact ⟨fun e' he' => by injection he' with he'; subst he'; exact hab e hau, fun r t ω' h => by cases h⟩
@@ -533,7 +592,7 @@ theorem growLoop_progress {o : Stoch} {m : Mode} {R : List Desc} (hc : Cert o m 
             obtain ⟨rfl, -, -⟩ := hok
             exact hh
           · simp only [hmass, if_false]
-            obtain ⟨hib, hip⟩ := ih (n + 1) s1 ω2 hs1 hne1 hch1'
+            obtain ⟨hib, hip⟩ := ih (n + 1) s1 ω2 (fun od h => InR_app_right (hs1 od h)) (Or.inl hs1) hne1 hch1'
             cases hrec : growLoop o start target f (n + 1) s1 ω2 with
             | error e => exact ⟨fun e' he' => by injection he' with he'; subst he'; exact hib e hrec, fun r t ω' h => by cases h⟩
             | ok r3 =>
@@ -555,10 +614,10 @@ theorem same3_of_compatible {rr x : Desc} (h : isCompatible rr x = true) : Same3
   cases hr : rr.sym <;> cases hx : x.sym <;> simp [conj, flipSym, hr, hx] at h5 h1 h2 ⊢
 
 /-- **`get_start` cannot raise** and yields a molecule with exactly one open descriptor, of `R` -/
-theorem getStart_progress {o : Stoch} {m : Mode} {R : List Desc} (hc : Cert o m R) {pre : Option Mol} {inc : Option Desc}
-    (hpre : PreOK pre inc) (hst : StartOK o R inc) (ω : Oracle) :
+theorem getStart_progress {o : Stoch} {R0 : List Desc} {pre : Option Mol} {inc : Option Desc}
+    (hpre : PreOK pre inc) (hst : StartOK o R0 inc) (ω : Oracle) :
     OkOrBenign (getStart o pre ω) ∧
-    ∀ s t ω', getStart o pre ω = .ok (s, t, ω') → OpensIn R s ∧ s.opens.length = 1 := by
+    ∀ s t ω', getStart o pre ω = .ok (s, t, ω') → OpensIn R0 s ∧ s.opens.length = 1 := by
   unfold getStart
   cases pre with
   | none =>
@@ -655,7 +714,7 @@ theorem genStoch_progress {o : Stoch} {m : Mode} {R : List Desc} {inc : Option D
   obtain ⟨hgen, hmode, hcert, hstart⟩ := hok
   unfold genStoch
   simp only [hgen, Bool.not_true, Bool.false_eq_true, if_false, preOK_prefixOk hpre]
-  obtain ⟨hgb, hgp⟩ := getStart_progress hcert hpre hstart ω
+  obtain ⟨hgb, hgp⟩ := getStart_progress hpre hstart ω
   cases hgs : getStart o pre ω with
   | error e => exact ⟨fun e' he' => by injection he' with he'; subst he'; exact hgb e hgs, fun r t ω' h => by cases h⟩
   | ok r0 =>
@@ -670,7 +729,7 @@ theorem genStoch_progress {o : Stoch} {m : Mode} {R : List Desc} {inc : Option D
       | draw target =>
         dsimp only
         have hne : s.opens ≠ [] := by intro h0; rw [h0] at hlen; simp at hlen
-        obtain ⟨hlb, hlp⟩ := growLoop_progress hcert hmode s.mass target fuel 0 s ω1 hs hne (fun _ => hlen)
+        obtain ⟨hlb, hlp⟩ := growLoop_progress hcert hmode s.mass target fuel 0 s ω1 (fun od h => InR_app_left (hs od h)) (Or.inr hlen) hne (fun _ => hlen)
         cases hgl : growLoop o s.mass target fuel 0 s ω1 with
         | error e => exact ⟨fun e' he' => by injection he' with he'; subst he'; exact hlb e hgl, fun r t ω' h => by cases h⟩
         | ok r1 =>
@@ -736,11 +795,13 @@ theorem genToken_progress {t : Token} {inc : Option Desc} (hok : TokOK t inc) {p
       obtain ⟨od, hop, hs3⟩ := hpre
       obtain ⟨hg, j, -, hids, hrest⟩ := hok
       simp only [hg, Bool.not_true, Bool.false_eq_true, if_false, hop]
-      have hids' : compatibleIds t.bds (some od.d) = [j] := by
-        unfold compatibleIds; rw [compatibleIdsFrom_same3 hs3]; exact hids
-      have hjm : j ∈ compatibleIds t.bds (some od.d) := by rw [hids']; simp
+      have hcids : compatibleIds t.bds (some od.d) = compatibleIds t.bds (some h) := by
+        unfold compatibleIds; rw [compatibleIdsFrom_same3 hs3]
+      have hids' : pickable t.bds (some od.d) = [j] := by
+        unfold pickable; rw [hcids]; exact hids
+      have hjm : j ∈ compatibleIds t.bds (some od.d) := pickable_subset (by rw [hids']; simp)
       obtain ⟨hjlt, hjc⟩ := (C03_filter _ _ _).1 hjm
-      have h1 := choose_progress t.bds (some od.d) ω (by rw [hids']; simp)
+      have h1 := choose_progress t.bds (some od.d) ω (by intro h0; rw [h0] at hjm; simp at hjm)
         (fun i hi => by
           obtain ⟨hlt, -⟩ := (C03_filter _ _ _).1 hi
           rw [List.getD_eq_getElem?_getD, List.getElem?_eq_getElem hlt]
@@ -750,7 +811,7 @@ theorem genToken_progress {t : Token} {inc : Option Desc} (hok : TokOK t inc) {p
       | ok r0 =>
         obtain ⟨j', c, ω1⟩ := r0
         have hj' : j' = j := by
-          have := choose_mem hch
+          have := choose_pickable hch
           rw [hids'] at this
           simpa using this
         subst hj'
